@@ -314,7 +314,16 @@ def build_impl(q, case):
             objs.append(meas[n[1]])
         elif t == "const":
             c = unbits(n[1])
-            objs.append(int(c) if c.is_integer() and abs(c) < 100 and (n[1] % 3 == 0) else c)
+            # the same number in the different numeric types a caller may use
+            sel = (n[1] // 7 + len(objs)) % 6
+            if c.is_integer() and abs(c) < 100 and sel in (0, 1):
+                import numpy as np
+                objs.append(int(c) if sel == 0 else np.int64(int(c)))
+            elif sel == 2:
+                import numpy as np
+                objs.append(np.float64(c))
+            else:
+                objs.append(c)
         elif t == "pair":
             objs.append((vals[n[1]], errs[n[1]]))
         elif t == "un":
